@@ -1,7 +1,7 @@
 HOOKS = {
     "guard": "cargo feature `verif_hooks` of crate moc-set (crates/set); no hook commit exists yet",
     "enable": "cargo build -p moc-set --features verif_hooks (only C16 needs it)",
-    "baseline_off_cmd": "cd /repo && cargo test --workspace --no-fail-fast --offline",
+    "baseline_off_cmd": "cd /repo && cargo nextest run --workspace --no-fail-fast --offline --test-threads 8  (fallback: cargo test --workspace --no-fail-fast --offline)",
     "source_commits": [],
     # fix commits in /repo (unguarded, see known_findings.json): 1c108d1 (C01 lazy minus)
     "add_only": True,
@@ -124,4 +124,17 @@ CLAIMED["C15"] = {
     "note": TB + "; cone/pos geometry and the union command not driven",
     "technique": "Lean 4 proof (exactness of degrade-then-convert) + correspondence with the real binary",
 }
+CLAIMED["C16"] = {
+    "text": "Effect-order model of `append` (data visible, index store, meta store) with theorems: for the repaired order every prefix of effects — i.e. every kill point — leaves a file on "
+            "which a reader sees a consistent listing equal to the one before or after the update (append_atomic), well-formedness is preserved, and the ORIGINAL order (index and meta "
+            "published through the shared mapping before the data flush) is proved inconsistent. On the real binary (built with the verif_hooks feature) the updater is aborted at each of 10 "
+            "named points of append / chgstatus / purge and readers, a second writer and a recovery update are observed. Two defects repaired (publish-before-flush; a debug assertion that made "
+            "recovery appends panic). Partial: pause-type schedules, chgstatus/purge effect models and power loss are not covered.",
+    "design_ref": "DESIGN.md §4 C16, §10",
+    "note": TB + "; visibility rules of MAP_SHARED stores vs buffered writes are assumptions of the model",
+    "technique": "Lean 4 proof on an effect-order model + fault-point enumeration on the real binary (hook feature)",
+}
+HOOKS["source_commits"] = ["a33f737"]
+HOOKS["guard"] = "cargo feature `verif_hooks` of crate moc-set (crates/set)"
+HOOKS["enable"] = "cargo build -p moc-set -p moc-cli --features moc-set/verif_hooks (done by ./check C16 into .cache/repo-target-hooks)"
 NOT_YET = {}
